@@ -455,6 +455,34 @@ def campaign(ck: Check, quick: bool) -> None:
     run_batch(ck, camp, stratum(ck, quick))
 
 
+# ---------------------------------------------------------------- model tie: Model.FieldReads.reads vs the real member line
+def campaign_reads(ck: Check, n: int) -> None:
+    """correspondence: the names that the default expression of the member rendered by the MODEL reads while the class body
+    runs (Lean: Dcg.Model.FieldReads.reads, driver `field.reads`) vs the names `ast` finds in the member line the real
+    generate() emitted (lambda bodies excluded), on the corpus + a stratified sample of the scalar / array / dict space"""
+    camp = ck.campaign("default expression reads: Model.FieldReads.reads (driver field.reads) vs the bare names the default expression of the "
+                       "member line emitted by the real generate() reads while the class body runs (ast, lambda bodies excluded)")
+    t0 = time.time()
+    vs = [v for v in c05.corpus() + c05.stratified(ck, n) if not (c05.is_union(v) or c05.is_ref(v) or c05.relist_of(v))]
+    reqs = [c05.driver_request(v).replace("field.render ", "field.reads ", 1) for v in vs]
+    replies = ck.driver.run(reqs)
+    for v, r, rep in zip(vs, c05.run_vectors(vs), replies):
+        camp.evaluations += 1
+        if "error" in r or not rep.startswith("ok "):
+            camp.hit("generator_error" if "error" in r else "model-rejects")
+            continue
+        model = [] if rep[3:].strip() == "-" else rep[3:].strip().split(",")
+        real, _ = free_names_of_line(r["line"])
+        key = c05.vec_key(v)
+        camp.distinct.add(key)
+        camp.hit("reads:" + (",".join(real) or "nothing"))
+        if model != real:
+            ck.disagree(camp, {"vector": v, "key": key, "member": r.get("member"), "line": r["line"]}, model, real)
+        elif len(camp.samples) < 3 and real:
+            camp.samples.append({"key": key, "line": r["line"], "reads": real})
+    camp.wall_s = time.time() - t0
+
+
 # ---------------------------------------------------------------- targeted search (a rendering disagreement about a default expression)
 def cases_from_disagreements(ck: Check, limit: int = 60) -> list[dict]:
     """For every stage-2 (rendering) disagreement whose real member line has a default expression:
